@@ -367,9 +367,14 @@ def run_driver_shard(args):
     write_case_obs(cases, cf, of)
     m = "all" if mask is None else ",".join(str(x) for x in mask)
     o = ",".join(str(x) for x in oracle_ids) if oracle_ids else "-"
-    rc, out = sh([drv, str(famnum), m, o, cf, of], timeout=3000)
+    # a model shard that needs more than 12 GB or 25 minutes is a blow-up (e.g. an oracle fed observations of a broken
+    # crate): report it as a failed model evaluation instead of exhausting the machine
+    try:
+        rc, out = sh("ulimit -v 12000000 2>/dev/null; exec %s %s %s %s %s %s" % (drv, famnum, m, o, cf, of), timeout=1500)
+    except subprocess.TimeoutExpired:
+        return {"error": "model driver shard exceeded 25 minutes"}
     if rc != 0:
-        return {"error": out[-3000:]}
+        return {"error": out[-3000:] or "model driver shard died without output (memory limit?)"}
     res = {}
     for line in out.splitlines():
         t = line.split()
